@@ -22,12 +22,17 @@ type c09p struct {
 	// trickle > 0: no size limit ever triggers; the producers pause this long (virtual time)
 	// between batches, so every flush is started by the MaxBufferedTime clock
 	trickle time.Duration
+	// parts: every batch lands in a partition of its own (PartitionFunc = the row's id)
+	parts bool
 }
 
 func (p c09p) name() string {
 	n := fmt.Sprintf("wedge_%s-ib%d-rows%d-p%d", p.wedge, p.ib, p.rows, p.producers)
 	if p.trickle > 0 {
 		n += fmt.Sprintf("-trickle%dms", p.trickle/time.Millisecond)
+	}
+	if p.parts {
+		n += "-parts"
 	}
 	return n
 }
@@ -49,6 +54,9 @@ func c09Root(p c09p) func() {
 		if p.trickle > 0 {
 			cfg.MaxBufferedRows = 1 << 20
 			cfg.MaxBufferedTime = 50 * time.Millisecond
+		}
+		if p.parts {
+			cfg.PartitionFunc = func(row map[string]any) string { return fmt.Sprint(row["id"]) }
 		}
 		eng, err := bs.NewBloomSearchEngine(cfg, meta, data)
 		if err != nil {
@@ -118,16 +126,18 @@ func init() {
 		var ps []c09p
 		if tier == "quick" {
 			for _, w := range []string{"CreateFile", "Write", "Close", "Update"} {
-				ps = append(ps, c09p{w, 1, 1, 2, 0})
+				ps = append(ps, c09p{w, 1, 1, 2, 0, false})
 			}
-			ps = append(ps, c09p{"Update", 2, 2, 2, 0})
+			ps = append(ps, c09p{"Update", 2, 2, 2, 0, false})
+			// every batch in a new partition
+			ps = append(ps, c09p{"CreateFile", 1, 1, 2, 0, true}, c09p{"Update", 2, 2, 2, 0, true})
 			// time-triggered flushes only: each producer's batches arrive one ticker period apart
-			ps = append(ps, c09p{"CreateFile", 1, 1, 1, 250 * time.Millisecond}, c09p{"Update", 1, 1, 2, 250 * time.Millisecond})
+			ps = append(ps, c09p{"CreateFile", 1, 1, 1, 250 * time.Millisecond, false}, c09p{"Update", 1, 1, 2, 250 * time.Millisecond, false})
 		} else {
 			for _, w := range []string{"CreateFile", "Write", "Close", "Update"} {
 				for _, np := range []int{1, 2} {
 					for _, gap := range []time.Duration{120 * time.Millisecond, 250 * time.Millisecond} {
-						ps = append(ps, c09p{w, 1, 1, np, gap})
+						ps = append(ps, c09p{w, 1, 1, np, gap, false})
 					}
 				}
 			}
@@ -135,7 +145,10 @@ func init() {
 				for _, ib := range []int{1, 2} {
 					for _, rows := range []int{1, 2} {
 						for _, np := range []int{2, 3} {
-							ps = append(ps, c09p{w, ib, rows, np, 0})
+							ps = append(ps, c09p{w, ib, rows, np, 0, false})
+							if np == 2 {
+								ps = append(ps, c09p{w, ib, rows, np, 0, true})
+							}
 						}
 					}
 				}
